@@ -282,6 +282,8 @@ def run_case(case):
             if d:
                 return d, None, log
         return None, None, log
+    except Exception as ex:          # noqa - raised while the run's results were being examined: a verdict, not a harness error
+        return f"the outcome of simulate() cannot be examined: {type(ex).__name__}: {ex}", None, log
     finally:
         if wd:
             shutil.rmtree(wd, ignore_errors=True)
